@@ -359,6 +359,9 @@ class BPTC19696:
             is_reserved,
             is_hamming,
         ) in BPTC19696.INTERLEAVING_INDICES.items():
+            if row < 1:
+                # R(3) is not a cell of the 13x15 matrix, nothing was repaired there
+                continue
             bits[data_index if deinterleaved else interleave_index] = table[row - 1][
                 column
             ]
